@@ -34,7 +34,7 @@ def run_arena(ctx, traces, ops, profile, fields=ALL_FIELDS, oracle_props=None, s
             return False
     exe = bin_path("arena")
     env = dict(os.environ, VERIF_SEED=str(ctx.seed + seed_offset))
-    p = subprocess.run([exe, str(traces), str(ops), profile], capture_output=True, text=True, env=env, timeout=7200)
+    p = run_harness([exe, str(traces), str(ops), profile], env, ctx)
     label = label or profile
     if p.returncode != 0:
         ctx.add_ob(f"run:arena-{label}", "build", False, f"rc={p.returncode}\n{p.stderr[-2000:]}\n{p.stdout[-1500:]}")
